@@ -771,11 +771,19 @@ def histories(ctx):
         if form != "sp":
             inputs["Q_in"] = Qin
         inputs = {k_: v_ for k_, v_ in inputs.items() if v_ is not None}
+        in_frozen = {k_: frozen(v_) for k_, v_ in inputs.items()}     # before the constructor sees them
         if form == "prod":
             ddp = DiscreteDP(Rin, Qarg, inst.beta)
         else:
             ddp = DiscreteDP(Rin, Qarg, inst.beta, s_in, a_in)
-        in_frozen = {k_: frozen(v_) for k_, v_ in inputs.items()}
+        for name_, arr_ in inputs.items():
+            if frozen(arr_) != in_frozen[name_]:
+                ctx.spec_fail("history_constructor_modified_input", "DiscreteDP(...) modified the caller's %s" % name_,
+                              {"stream": "history", "formulation": form, "beta": inst.beta,
+                               "pairs": None if s_in is None else [[int(a), int(b)] for a, b in zip(s_in, a_in)],
+                               "R_prod": [[None if x is None else int(x) for x in row] for row in inst.R],
+                               "Q_prod": [[[str(q) for q in inst.Q[s][a]] for a in range(m)] for s in range(n)]})
+                in_frozen[name_] = frozen(arr_)
         obj_frozen = {k_: frozen(v_) for k_, v_ in object_arrays(ddp).items()}
         kept = []       # dicts: name, arr, frozen, rejudge (callable on the current content) or None
         log = []
@@ -927,6 +935,198 @@ def histories(ctx):
                                       "%s shares memory with %s" % (kept[i]["name"], name), rep)
         ctx.count("history:objects")
         ctx.count("history:kept-arrays", len(kept))
+
+
+
+def caller_arrays(ctx):
+    """sa-pair formulation from the caller's own ndarrays in unsorted pair orders: the constructor and the solvers
+    must leave R, Q, s_indices, a_indices bitwise unchanged, and a second instance as well as the sparse formulation
+    built afterwards from the SAME arrays must still solve the problem as originally described"""
+    from quantecon.markov import DiscreteDP
+    rng = ctx.rng
+    for it in range(ctx.n(10, 120)):
+        inst = gen_instance(rng, 4, 3, True)
+        tries = 0
+        while sum(len(f) for f in inst.feas) < 3 and tries < 5:
+            inst = gen_instance(rng, 4, 3, True)
+            tries += 1
+        vstar, _ = inst.vstar()
+        n, m = inst.n, inst.m
+        pairs = [(s, a) for s in range(n) for a in inst.feas[s]]
+        L = len(pairs)
+        order = ["rotation", "shuffle", "action-major", "reversed", "shuffle", "rotation"][it % 6]
+        if order == "rotation":
+            r = rng.randint(1, max(1, L - 1))
+            pairs = pairs[r:] + pairs[:r]
+        elif order == "shuffle":
+            rng.shuffle(pairs)
+        elif order == "action-major":
+            pairs.sort(key=lambda p_: (p_[1], p_[0]))
+        else:
+            pairs.reverse()
+        is_sorted = pairs == sorted(pairs)
+        layout = "C" if (is_sorted or it % 2 == 0) else "F"
+        R = np.array([float(inst.R[s][a]) for s, a in pairs], dtype=np.float64)
+        Q = np.array([[float(q) for q in inst.Q[s][a]] for s, a in pairs], dtype=np.float64).reshape(L, n)
+        if layout == "F":
+            Q = np.asfortranarray(Q)
+        s_idx = np.array([p_[0] for p_ in pairs], dtype=np.int64)
+        a_idx = np.array([p_[1] for p_ in pairs], dtype=np.int64)
+        arrays = {"R": R, "Q": Q, "s_indices": s_idx, "a_indices": a_idx}
+        snap = {k_: frozen(v_) for k_, v_ in arrays.items()}
+        base = {"stream": "caller-arrays", "order": order, "Q_layout": layout, "beta": inst.beta,
+                "pairs": [list(p_) for p_ in pairs],
+                "R_prod": [[None if x is None else int(x) for x in row] for row in inst.R],
+                "Q_prod": [[[str(q) for q in inst.Q[s][a]] for a in range(m)] for s in range(n)]}
+        ctx.count("caller-arrays:order=%s" % order)
+        ctx.count("caller-arrays:layout=%s" % layout)
+        if is_sorted:
+            ctx.count("caller-arrays:happens-to-be-sorted")
+
+        def unchanged(when):
+            for k_, v_ in arrays.items():
+                if frozen(v_) != snap[k_]:
+                    ctx.spec_fail("caller_array_modified",
+                                  "the caller's %s was modified (%s)" % (k_, when), dict(base, when=when, array=k_,
+                                                                                       now=np.asarray(v_).tolist()))
+                    snap[k_] = frozen(v_)
+
+        eps = rng.choice([0.5, 0.125, 2.0 ** -6])
+        k = rng.choice([0, 1, 5])
+
+        def solve_all(ddp, label, sparse):
+            for method in ("vi", "pi", "mpi", "lp"):
+                if method == "lp" and sparse:
+                    continue
+                kw = {}
+                if method in ("vi", "mpi"):
+                    kw["epsilon"] = eps
+                if method == "mpi":
+                    kw["k"] = k
+                res = ddp.solve(method=method, **kw)
+                cap = 250 * n if method == "lp" else 250
+                rep = dict(base, instance=label, method=method, eps=eps, k=k, v=[float(x) for x in res.v],
+                           sigma=[int(x) for x in res.sigma], num_iter=int(res.num_iter))
+                judge(ctx, inst, vstar, method, res.v, res.sigma, int(res.num_iter), cap, eps, rep,
+                      "caller_arrays_%s_" % label)
+                unchanged("after %s.solve(%s)" % (label, method))
+
+        ddp1 = DiscreteDP(R, Q, inst.beta, s_idx, a_idx)
+        unchanged("by the constructor of the first instance")
+        solve_all(ddp1, "first", False)
+        # a second instance and the sparse formulation from the very same arrays
+        ddp2 = DiscreteDP(R, Q, inst.beta, s_idx, a_idx)
+        unchanged("by the constructor of the second instance")
+        solve_all(ddp2, "second", False)
+        ddp3 = DiscreteDP(R, sp.csr_matrix(Q), inst.beta, s_idx, a_idx)
+        unchanged("by the constructor of the sparse instance")
+        solve_all(ddp3, "sparse", True)
+        # the first instance still answers correctly
+        res = ddp1.solve(method="pi")
+        judge(ctx, inst, vstar, "pi", res.v, res.sigma, int(res.num_iter), 250, eps,
+              dict(base, instance="first-again", method="pi", v=[float(x) for x in res.v],
+                   sigma=[int(x) for x in res.sigma]), "caller_arrays_first_again_")
+        ctx.count("caller-arrays:objects", 3)
+
+
+def slow_gain_instance(rng):
+    """high discount factor; 'slow-gain' gadgets: state g can stay (reward r0) or take a myopically worse action
+    (reward r0 - delta) that moves with small probability p to an absorbing state with reward r0 + c.  At the
+    all-stay policy the one-step gain of switching is rel*|v| with rel in [2e-6, 8e-6] (far above rounding and above
+    the LP's fea_tol in absolute terms, far below 1e-5*|v|), but it accumulates by the factor ~1/(1-beta)."""
+    beta = rng.choice([0.99, 0.999, 0.9999])
+    r0 = rng.choice([1.0, 1.0, 10.0])
+    ngad = rng.choice([1, 1, 2])
+    nfill = rng.choice([0, 0, 1, 2])
+    n = 2 * ngad + nfill
+    m = 2
+    R = [[None] * m for _ in range(n)]
+    Q = [[None] * m for _ in range(n)]
+    states = list(range(n))
+    rng.shuffle(states)
+    V = r0 / (1 - beta)
+    for gi in range(ngad):
+        g, h = states[2 * gi], states[2 * gi + 1]
+        p = rng.choice([2.0 ** -10, 0.001, 0.004])
+        c = r0 * rng.choice([0.01, 0.02, 0.05])
+        rel = rng.choice([2e-6, 4e-6, 6e-6, 8e-6])
+        gross = beta * p * c / (1 - beta)
+        g1 = min(rel * V, 0.8 * gross)
+        delta = gross - g1
+        a_stay = rng.randrange(2)
+        row_stay = [0.0] * n
+        row_stay[g] = 1.0
+        row_move = [0.0] * n
+        row_move[g] = 1.0 - p
+        row_move[h] = p
+        R[g][a_stay], Q[g][a_stay] = r0, row_stay
+        R[g][1 - a_stay], Q[g][1 - a_stay] = r0 - delta, row_move
+        row_h = [0.0] * n
+        row_h[h] = 1.0
+        R[h][0], Q[h][0] = r0 + c, row_h
+        if rng.random() < 0.5:      # a clearly dominated second action in the absorbing state
+            R[h][1], Q[h][1] = r0 * 0.5, row_h
+        else:
+            Q[h][1] = row_h
+    for f in states[2 * ngad:]:
+        # filler: one action, or two with identical transitions and clearly different rewards
+        w = [rng.randint(0, 4) for _ in range(n)]
+        if sum(w) == 0:
+            w[f] = 1
+        tot = sum(w)
+        den = 8
+        row = [F(x, tot) for x in w]
+        rowf = [float(x) for x in row]
+        rowf[rowf.index(max(rowf))] += 1.0 - sum(rowf)
+        R[f][0], Q[f][0] = r0 * rng.choice([0.25, 0.5, 0.75]), rowf
+        if rng.random() < 0.5:
+            R[f][1], Q[f][1] = R[f][0] - r0 * 0.125, rowf
+        else:
+            Q[f][1] = rowf
+    Rx = [[None if x is None else F(float(x)) for x in row] for row in R]
+    Qx = [[[F(float(q)) for q in Q[s][a]] for a in range(m)] for s in range(n)]
+    return Inst(n, m, Rx, Qx, beta, tags=["slow-gain"])
+
+
+def slow_gain(ctx):
+    """high-discount stream (beta in {0.99, 0.999, 0.9999}); all formulations and methods; exact-oracle judgement"""
+    rng = ctx.rng
+    for it in range(ctx.n(6, 120)):
+        inst = slow_gain_instance(rng)
+        vstar, _ = inst.vstar()
+        scale = max(abs(x) for x in vstar)
+        # the exact gap between the best and the all-"myopic" policy must be far above the rounding slack
+        myopic = [max(f, key=lambda a: inst.R[s][a]) for s, f in enumerate(inst.feas)]
+        gap = dist(inst.eval(myopic), vstar)
+        if gap <= F(1, 10 ** 6) * (1 + scale):
+            ctx.count("slow-gain:gap-too-small-skipped")
+            continue
+        ctx.count("slow-gain:beta=%s" % inst.beta)
+        v_init = rng.choice([None, None, [0.0] * inst.n, [float(scale)] * inst.n])
+        eps = rng.choice([1e-2, 1e-1])
+        for form, wire, spec in np_forms(inst, rng):
+            ddp = build(spec, inst.beta)
+            for method in ("pi", "lp", "vi", "mpi"):
+                if method == "lp" and form == "sp":
+                    continue
+                if method == "vi" and not ctx.thorough:
+                    continue        # (always at the cap of 250 sweeps for these discount factors: nothing to judge)
+                kw = {}
+                if v_init is not None:
+                    kw["v_init"] = np.array(v_init, dtype=float)
+                if method in ("vi", "mpi"):
+                    kw["epsilon"] = eps
+                if method == "mpi":
+                    kw["k"] = 20
+                res = ddp.solve(method=method, **kw)
+                cap = 250 * inst.n if method == "lp" else 250
+                rep = {"stream": "slow-gain", "form": form, "method": method, "beta": inst.beta, "eps": eps,
+                       "v_init": v_init, "v": [float(x) for x in res.v], "sigma": [int(x) for x in res.sigma],
+                       "num_iter": int(res.num_iter), "v_star": [float(x) for x in vstar],
+                       "R": [[None if x is None else float(x) for x in row] for row in inst.R],
+                       "Q": [[[float(q) for q in inst.Q[s][a]] for a in range(inst.m)] for s in range(inst.n)]}
+                judge(ctx, inst, vstar, method, res.v, res.sigma, int(res.num_iter), cap, eps, rep, "slow_gain_")
+                ctx.count("slow-gain:%s:%s" % (method, "before-cap" if int(res.num_iter) < cap else "at-cap"))
 
 
 
@@ -1220,6 +1420,8 @@ def run(ctx):
 
     argument_forms(ctx)
     histories(ctx)
+    caller_arrays(ctx)
+    slow_gain(ctx)
 
     ctx.run_cases(cases)
     ctx.run_cases(spec_cases)
